@@ -1,0 +1,43 @@
+//go:build verif
+
+package generalheap
+
+// Contracts for the generic heap (property C12: removal handles stay valid because every element
+// knows its current index), read by the verification machinery in /verif. Comment-only file.
+//
+// Invariant of a Heap value: h[i] != nil and h[i].index == i for every position. It is preserved
+// by Swap, Push and Pop individually, hence by any sequence of them container/heap performs.
+// A popped element has index -1.
+
+/*@
+type Heap
+  invariant forall i Int :: 0 <= i && i < len(self) ==> self[i] != nil && self[i].index == i
+
+func Heap.Len
+  ensures r0 == len(h)
+
+func Heap.Swap
+  requires inv(h) && 0 <= i && i < len(h) && 0 <= j && j < len(h)
+  modifies elems(h), h[i].index, h[j].index
+  ensures inv(h)
+  ensures h[i] == old(h[j]) && h[j] == old(h[i])
+  ensures forall k Int :: 0 <= k && k < len(h) && k != i && k != j ==> h[k] == old(h[k])
+
+func Heap.Push
+  requires h != nil && inv(*h) && x != nil && typeof(x) == typeid(*HeapElement) && unbox(*HeapElement, x) != nil
+  requires forall k Int :: 0 <= k && k < len(*h) ==> (*h)[k] != unbox(*HeapElement, x)      -- the element is not in the heap yet
+  modifies *h, allelems(*HeapElement), unbox(*HeapElement, x).index
+  ensures inv(*h) && len(*h) == old(len(*h)) + 1 && (*h)[len(*h) - 1] == unbox(*HeapElement, x)
+  ensures forall k Int :: 0 <= k && k < old(len(*h)) ==> (*h)[k] == old((*h)[k])
+
+func Heap.Pop
+  requires h != nil && inv(*h) && len(*h) > 0
+  modifies *h, elems(*h), (*h)[len(*h) - 1].index
+  ensures inv(*h) && len(*h) == old(len(*h)) - 1
+  ensures r0 != nil && typeof(r0) == typeid(*HeapElement) && unbox(*HeapElement, r0) == old((*h)[len(*h) - 1])
+  ensures unbox(*HeapElement, r0).index == 0 - 1              -- a popped element is marked as removed
+  ensures forall k Int :: 0 <= k && k < len(*h) ==> (*h)[k] == old((*h)[k])
+
+func HeapElement.Index
+  ensures r0 == h.index
+@*/
